@@ -156,7 +156,7 @@ impl Property for C01 {
         // applied: scalings and translations would not stay exact in f64 at this magnitude.
         let big = || (1i64 << 26)..(1i64 << 28);
         // P = t (u,v) + e and P' = (t+m) (u,v) + e: cross(P, P') = -m cross((u,v), e) is tiny although both vectors are huge
-        let wedge = (((1i64 << 26)..(1i64 << 27), (-3i64..4, -3i64..4), (-2i64..3, -2i64..3), -3i64..4), (-3i64..4, -3i64..4), (big(), big()), 0u8..2, prop_oneof![Just(0u8), Just(1u8), Just(3u8)], 0u8..8, any::<u64>()).prop_filter_map(
+        let wedge = ((prop_oneof![2 => (1i64 << 26)..(1i64 << 27), 1 => (1i64 << 11)..(1i64 << 12)], (-3i64..4, -3i64..4), (-2i64..3, -2i64..3), -3i64..4), (-3i64..4, -3i64..4), (big(), big()), 0u8..2, prop_oneof![Just(0u8), Just(1u8), Just(3u8)], 0u8..8, any::<u64>()).prop_filter_map(
             "degenerate wedge",
             |((t, uv, e, m), o, (sx, sy), ka, kb, d4, vsel)| {
                 if uv == (0, 0) {
@@ -244,6 +244,8 @@ impl Property for C01 {
         obs.label(c.xf.label());
         if c.a.coords().iter().chain(c.b.coords().iter()).any(|q| q.0.abs() >= 1 << 25 || q.1.abs() >= 1 << 25) {
             obs.label("thin-wedge-at-2^26..2^28");
+        } else if c.a.coords().iter().chain(c.b.coords().iter()).any(|q| q.0.abs() >= 1 << 10 || q.1.abs() >= 1 << 10) {
+            obs.label("thin-wedge-at-2^11..2^14(f32)");
         }
         if bbox_class(&c.a, &c.b) != "bbox:disjoint" && info.touching {
             obs.nontrivial();
@@ -292,6 +294,25 @@ impl Property for C01 {
                 }
             }
             Err(p) => obs.fail(format!("relate-enum:{ta}/{tb}|panic|{}", p.site()), format!("{} {}", p, ctx())),
+        }
+        // (3a) the f32 instantiation, when every coordinate is exactly representable in f32 (same point sets, same matrix)
+        {
+            use geo::{CoordsIter, MapCoords};
+            let fits = |g: &geo::Geometry<f64>| g.coords_iter().all(|c| (c.x as f32) as f64 == c.x && (c.y as f32) as f64 == c.y);
+            if fits(&ga) && fits(&gb) {
+                let narrow = |g: &geo::Geometry<f64>| -> geo::Geometry<f32> { g.map_coords(|c| geo::Coord { x: c.x as f32, y: c.y as f32 }) };
+                let (fa, fb) = (narrow(&ga), narrow(&gb));
+                match guard(std::panic::AssertUnwindSafe(|| matrix_of(&fa.relate(&fb)))) {
+                    Ok(m) => {
+                        obs.cmp();
+                        obs.label("scalar:f32");
+                        if m != want {
+                            obs.fail(format!("relate<f32>:{ta}/{tb}|matrix"), format!("relate::<f32> = {} but true DE-9IM = {} (f64 gave {}); {}", m.to_string9(), want.to_string9(), got.to_string9(), ctx()));
+                        }
+                    }
+                    Err(p) => obs.fail(format!("relate<f32>:{ta}/{tb}|panic|{}", p.site()), format!("{} {}", p, ctx())),
+                }
+            }
         }
         // (3b) one operand concrete, the other wrapped
         match guard(std::panic::AssertUnwindSafe(|| (with_concrete!(&ga, a => matrix_of(&a.relate(&gb))), with_concrete!(&gb, b => matrix_of(&ga.relate(b)))))) {
